@@ -268,6 +268,33 @@ func genPlain(t *rapid.T) truncCase {
 		max = 40
 	}
 	m := gen.PlainMsg(t, max, true)
+	switch rapid.IntRange(0, 7).Draw(t, "special") {
+	case 0:
+		// the smallest possible records (root owner, no RDATA: 11 octets) at the start of sections,
+		// so that "exactly this much room is left" meets "exactly this small a record"
+		tiny := wm.Rec{Name: wm.Name{}, Type: wm.TTXT, Class: 1, TTL: 0, Fields: []wm.Field{{K: wm.Strs}}}
+		for _, sec := range m.Sections() {
+			if rapid.Bool().Draw(t, "tinyfirst") {
+				*sec = append([]wm.Rec{tiny}, *sec...)
+			}
+		}
+	case 1, 2:
+		// a reply beyond 16 KiB: names first written around offset 16384 and repeated later, sizes
+		// above the pointer limit
+		pre := 12
+		for _, q := range m.Q {
+			pre += q.Name.WireLen() + 4
+		}
+		k := rapid.IntRange(-30, 60).Draw(t, "k")
+		m.An = append([]wm.Rec{gen.PlainFiller(16384 - pre - 16 - k)}, m.An...)
+		// make sure names repeat behind the boundary
+		var reuse []wm.Rec
+		for _, r := range m.An[1:] {
+			reuse = append(reuse, wm.Rec{Name: r.Name.Clone(), Type: wm.TNS, Class: 1, TTL: 1, Fields: []wm.Field{{K: wm.NameC, N: r.Name.Clone()}}})
+		}
+		m.Ns = append(reuse, m.Ns...)
+		m.Ns = append(m.Ns, reuse...)
+	}
 	return truncCase{M: m, Size: pickSize(t, m), Plain: true, TC: rapid.IntRange(0, 4).Draw(t, "tc") == 0}
 }
 
